@@ -724,6 +724,34 @@ fn check_ops(cx: &Cx, seq: &[COp], truncations: bool, rep: &mut Report) {
     if per.concat() != bytes {
         put(rep, Signature::new("C13", "roundtrip.ops").feat("to_bytes_is_not_the_concatenation"), || (case(), hex::encode(per.concat()), hex::encode(&bytes), String::new()));
     }
+    // the byte stream is a property of the ops, not of how the iterator is driven: k bytes pulled
+    // with next(), the rest drained by internal iteration (fold) and by nth(0) steps
+    for k in 0..=bytes.len().min(10) {
+        let driven = catch(|| {
+            let mut it = asm::to_bytes(ops.iter().cloned());
+            let mut a: Vec<u8> = (0..k).filter_map(|_| it.next()).collect();
+            let mut b = a.clone();
+            let mut it2 = asm::to_bytes(ops.iter().cloned());
+            for _ in 0..k {
+                it2.next();
+            }
+            it.for_each(|x| a.push(x));
+            while let Some(x) = it2.nth(0) {
+                b.push(x);
+            }
+            (a, b)
+        });
+        match driven {
+            Ok((a, b)) => {
+                for (how, got) in [("next_then_fold", a), ("next_then_nth", b)] {
+                    if got != bytes {
+                        put(rep, Signature::new("C13", "roundtrip.ops").feat("to_bytes_depends_on_iterator_driver").feat(how), || (case(), hex::encode(&bytes), format!("after {k} next(): {}", hex::encode(&got)), String::new()));
+                    }
+                }
+            }
+            Err((site, msg)) => put(rep, panic_sig(&site, &msg), || (case(), "bytes".into(), format!("panic {site}: {msg}"), String::new())),
+        }
+    }
     // (iii)/(v) encoding against each specification
     let mut seen: Vec<String> = vec![];
     for spec in cx.specs() {
@@ -1023,18 +1051,20 @@ macro_rules! group_table {
                 })
             }) as GroupParse,
             (|b: u8| asm::opcode::$g::try_from(b).ok().map(u8::from)) as fn(u8) -> Option<u8>,
+            // the #[repr(u8)] discriminant of the group-level opcode enum
+            (|b: u8| asm::opcode::$g::try_from(b).ok().map(|o| o as u8)) as fn(u8) -> Option<u8>,
         )),*]
     };
 }
 
-fn groups() -> Vec<(&'static str, GroupParse, fn(u8) -> Option<u8>)> {
+fn groups() -> Vec<(&'static str, GroupParse, fn(u8) -> Option<u8>, fn(u8) -> Option<u8>)> {
     group_table!(Stack, Pred, Alu, Access, Crypto, TotalControlFlow, Memory, ParentMemory, StateRead, Compute)
 }
 
 /// Byte `b` followed by `tail[..n]` through the parser of group `gname`.
 fn check_group(cx: &Cx, gname: &str, b: u8, fill: u8, n: usize, rep: &mut Report) {
     wal::tick();
-    let Some((_, parse, opc)) = groups().into_iter().find(|g| g.0 == gname) else {
+    let Some((_, parse, opc, disc)) = groups().into_iter().find(|g| g.0 == gname) else {
         rep.machinery_errors.push(format!("unknown group {gname}"));
         return;
     };
@@ -1046,9 +1076,9 @@ fn check_group(cx: &Cx, gname: &str, b: u8, fill: u8, n: usize, rep: &mut Report
         let mut it = bytes.iter().copied().inspect(|_| consumed += 1);
         let r = parse(&mut it);
         drop(it);
-        (r, consumed, opc(b))
+        (r, consumed, opc(b), disc(b))
     });
-    let (got, consumed, oc) = match r {
+    let (got, consumed, oc, dc) = match r {
         Ok(x) => x,
         Err((site, msg)) => {
             rep.eval(None, 3);
@@ -1058,6 +1088,11 @@ fn check_group(cx: &Cx, gname: &str, b: u8, fill: u8, n: usize, rep: &mut Report
     };
     let ok = matches!(got, Some(Ok(_)));
     rep.eval(if ok { Some(hash_of(&("group", gname, &bytes))) } else { None }, hash_of(&(gname, &bytes, &got, consumed)));
+    if dc != oc || dc.map(|d| d != b).unwrap_or(false) {
+        put(rep, Signature::new("C13", "opcode_roundtrip").feat("enum_discriminant").feat(format!("group:{gname}")), || {
+            (case(), format!("opcode::{gname}::try_from({}) as u8 == u8::from(..) == {}", hx(b), hx(b)), format!("as u8 = {dc:?}, u8::from = {oc:?}"), String::new())
+        });
+    }
     for spec in cx.specs() {
         let so = spec.at(b).filter(|o| o.groups().first().map(|g| g == gname).unwrap_or(false));
         // expectation from the specification alone
